@@ -683,6 +683,17 @@ def _local_types(repo, f: FuncInfo) -> dict[str, str]:
 
     elem_of: dict[str, str] = {}   # local container name -> class of its elements
 
+    def returns_container(call: ast.Call) -> bool:
+        """the callee's return annotation is a list / iterator of elements (not a single element)"""
+        if not isinstance(call.func, ast.Attribute):
+            return False
+        recv = call.func.value
+        cname = env.get(recv.id) if isinstance(recv, ast.Name) else None
+        c = repo.find_class(cname) if cname else None
+        g = c.lookup(call.func.attr) if c is not None else None
+        return g is not None and g.node.returns is not None and any(
+            isinstance(x, ast.Name) and x.id in ("list", "Iterator", "Iterable", "tuple", "Sequence") for x in ast.walk(g.node.returns))
+
     def ann_class(ann) -> str | None:
         names = [x.id for x in ast.walk(ann) if isinstance(x, ast.Name) and x.id not in ("Iterator", "Iterable", "list", "tuple", "None", "Optional", "Any", "Sequence")]
         names = [n_ for n_ in names if repo.find_class(n_) is not None]
@@ -715,7 +726,7 @@ def _local_types(repo, f: FuncInfo) -> dict[str, str]:
                 elif ac:
                     env[n.target.id] = ac
             if isinstance(n, ast.Assign) and len(n.targets) == 1 and isinstance(n.targets[0], ast.Name):
-                ec = elems_class(n.value) if not isinstance(n.value, ast.Call) else None
+                ec = elems_class(n.value) if not isinstance(n.value, ast.Call) else (result_class(n.value) if returns_container(n.value) else None)
                 if ec and n.targets[0].id not in elem_of:
                     elem_of[n.targets[0].id] = ec
             if isinstance(n, (ast.For, ast.comprehension)) and isinstance(n.target, ast.Name):
